@@ -470,6 +470,42 @@ pub fn run(id: &'static str, tier: Tier, seed: u64) -> i32 {
             total.violation(&format!("large scale: {}", classify(&m)), 11 << 56, format!("30 variables, loops shadowing OP17, OP03, OP29, OP00\nfirst difference at {m} (item {k})"), || dyn_replay(&text, &sigs, true, &script, &opts, ref_items_brief(&r), &obs, &m));
         }
     }
+    if c18 {
+        // far beyond the enumerated scope: loops nested 6..14 deep, a row behind every inner loop, the
+        // deepest counters re-using names of enclosing ones (k3 again at depth 10, k8 at depth 12)
+        let sigs = vec![Sig::inp("P0", 16, 0), Sig::inp("P1", 16, 0), Sig::out("Q", 16)];
+        for depth in [6usize, 8, 9, 10, 12, 14] {
+            let cname = |d: usize| match d {
+                10 => "k3".to_string(),
+                12 => "k8".to_string(),
+                _ => format!("k{d}"),
+            };
+            let rowv = |a: String, b: String| Stmt::Row(vec![Entry::Paren(name(&a)), Entry::Paren(name(&b)), Entry::X]);
+            let mut inner: Vec<Stmt> = vec![Stmt::Let("deep".into(), lit(depth as i64)), rowv(cname(depth - 1), "deep".into())];
+            for d in (0..depth).rev() {
+                let mut b = vec![Stmt::Let(format!("v{d}"), lit(d as i64 * 10))];
+                b.push(Stmt::Loop(cname(d), lit(if d == 5 { 2 } else { 1 }), inner));
+                // behind the inner loop: its counter and lets are gone, what they shadowed is back
+                b.push(rowv(format!("v{d}"), if d > 0 { cname(d - 1) } else { "v0".to_string() }));
+                inner = b;
+            }
+            let prog = Program { header: vec!["P0".into(), "P1".into(), "Q".into()], body: inner };
+            let text = text(&prog);
+            let script = vec![Step::Ans(vec![("Q".into(), V::Num(1))])];
+            let r = ref_run_fuel(&prog, &sigs, &script, 20_000, 100);
+            assert!(r.end == RefEnd::Done, "C18 deep nest {depth}: {:?}", r.end);
+            let mut opts = RunOpts::new(r.items.len() + 1);
+            opts.repeat_last = true;
+            opts.collect_vars = true;
+            let obs = run_dynamic(&text, &sigs, true, &script, &opts);
+            total.evals += 1;
+            total.nontrivial += 1;
+            total.witness("loops_nested_more_than_eight_deep");
+            if let Some((k, m)) = run_mismatch(&r, &obs, proj, None) {
+                total.violation(&format!("large scale: {}", classify(&m)), (11 << 56) + depth as u64, format!("loops nested {depth} deep\nprogram:\n{text}first difference at {m} (item {k})"), || dyn_replay(&text, &sigs, true, &script, &opts, ref_items_brief(&r), &obs, &m));
+            }
+        }
+    }
     {
         // an iterator is Send: created and advanced j times on one thread, it carries on on another;
         // rows and vars() are those of a run on a single thread
